@@ -1,11 +1,14 @@
 package main
 
 import (
+	"encoding/base64"
 	"encoding/json"
 	"fmt"
 	"sort"
 	"strings"
 	"time"
+
+	"github.com/russellhaering/gosaml2/types"
 
 	"verif/idp"
 	"verif/mc"
@@ -260,8 +263,23 @@ func c03Exec(c c03Case) (keys []string, detail string, class string) {
 	detail = fmt.Sprintf("cfg=%s dims=%+v violated(model)=%v | ValidateEncodedResponse: accepted=%v err=%s/%s/%s %q panic=%q | RetrieveAssertionInfo: accepted=%v err=%s/%s %q wrapped=%v",
 		c03CfgNames[c.Cfg], c.D, whats, r1.Accepted(), r1.Err.Type, r1.Err.Key, r1.Err.Attr, r1.Err.Text, r1.Panic, r2.Accepted(), r2.Err.Type, r2.Err.Key, r2.Err.Text, r2.Err.Wrapped)
 	fc := c03FaultClass(v)
-	for i, r := range []callResult{r1, r2} {
-		ep := []string{"ValidateEncodedResponse", "RetrieveAssertionInfo"}[i]
+	results := []callResult{r1, r2}
+	if c.Cfg < 6 || c03SkipEnc(c.Cfg) {
+		// third entry point: the exported Validate on a Response the caller decoded itself
+		// (encoding/xml into types.Response, nothing decrypted, signatures not looked at)
+		raw, _ := base64.StdEncoding.DecodeString(enc)
+		decoded := &types.Response{}
+		if e := xmlUnmarshal(raw, decoded); e == nil {
+			var verr error
+			sp := conf.Build()
+			p := guard(func() { verr = sp.Validate(decoded) })
+			r3 := callResult{Panic: p, Err: describeErr(verr)}
+			results = append(results, r3)
+			detail += fmt.Sprintf(" | Validate(decoded struct): accepted=%v err=%s/%s %q panic=%q", r3.Accepted(), r3.Err.Type, r3.Err.Key, r3.Err.Text, p)
+		}
+	}
+	for i, r := range results {
+		ep := []string{"ValidateEncodedResponse", "RetrieveAssertionInfo", "Validate"}[i]
 		switch {
 		case r.Panic != "":
 			keys = append(keys, fmt.Sprintf("C03/%s/%s/panic/%s", ep, c03CfgNames[c.Cfg], fc))
@@ -336,7 +354,7 @@ func c03Cases(thorough bool, stop func() bool) (cases []c03Case, shapes int, bou
 }
 
 func c03Run(r *mc.Run) {
-	r.Rule = "deviation-bounded DFS over profile-fault dimensions (Response: version, destination, issuer, status; per assertion position: issuer, subject structure, recipient, NotOnOrAfter) for n=0..3 assertions x 10 configurations (Response-signed, assertion-signed, skip-signature, each with and without a configured IdP issuer; Response- and assertion-signed with every assertion encrypted; skip-signature with every assertion encrypted, where nothing is decrypted and the Response must be rejected for having no assertion, with and without a configured issuer) x 2 entry points, each case judged on fresh instances and again, in sequence on one goroutine, on long-lived instances (one per configuration); non-trivial = the document got past decoding and signature processing into the profile validation (error is nil or a typed validation error); distinct = distinct (dims,cfg)"
+	r.Rule = "deviation-bounded DFS over profile-fault dimensions (Response: version, destination, issuer, status; per assertion position: issuer, subject structure, recipient, NotOnOrAfter) for n=0..3 assertions x 10 configurations (Response-signed, assertion-signed, skip-signature, each with and without a configured IdP issuer; Response- and assertion-signed with every assertion encrypted; skip-signature with every assertion encrypted, where nothing is decrypted and the Response must be rejected for having no assertion, with and without a configured issuer) x 3 entry points (ValidateEncodedResponse, RetrieveAssertionInfo, and the exported Validate on a types.Response the caller decoded with encoding/xml), each case judged on fresh instances and again, in sequence on one goroutine, on long-lived instances (one per configuration); non-trivial = the document got past decoding and signature processing into the profile validation (error is nil or a typed validation error); distinct = distinct (dims,cfg)"
 	cases, shapes, bounds, complete := c03Cases(r.Thorough(), r.Expired)
 	if !complete {
 		r.Cap("enumeration stopped by deadline")
